@@ -91,6 +91,12 @@ class Obj:
     def __hash__(self) -> int:
         return hash(("Obj", self.v))
 
+    def __lt__(self, other: Any) -> int:
+        # answers with 0 / 1 (falsy / truthy, but not the singletons False / True), strictly among its own kind
+        if not isinstance(other, Obj):
+            raise TypeError("Obj ordered against {}".format(type(other).__name__))
+        return 1 if self.v < other.v else 0
+
 
 class Amb:
     """An object whose truth value is ambiguous (bool() raises), as a numpy array with several elements."""
@@ -317,7 +323,8 @@ class ExprModule:
         self.ic = ic
         self.role = role
         deco, prefix = self.ROLES[role]
-        self.filename = "<icv-expr-{}>".format(next(_SERIAL))
+        # every module of a process is "the same file, edited and loaded again": other conditions at the same lines
+        self.filename = "<icv-expr-reloaded>" if role == "require" else "<icv-expr-{}>".format(next(_SERIAL))
         self.fn = {}  # type: Dict[str, Any]
         self.native = {}  # type: Dict[str, Any]
         self.recorded = {}  # type: Dict[str, Any]
@@ -686,6 +693,11 @@ def fam_typeof(rng: random.Random) -> List[list]:
             out += [[_nd("not")] + pl, [_nd("lt")] + pl + i0, [_nd("eq")] + pl + i0, [_nd("and")] + pl + [_nd("false")],
                     [_nd("lt")] + st + i0, [_nd("not")] + [_nd("ident")] + st, [_nd("eq")] + st + [_nd("none")],
                     [_nd("and")] + a + [_nd("lt")] + st + i0]
+    # chains over the harness's objects (the links answer 0 / 1): a falsy link ends the chain like False does
+    ox, oy = [_nd("name", 1)], [_nd("name", 2)]
+    for a, b, c3 in ((ox, oy, i2), (oy, ox, i2), (ox, oy, [_nd("first")] + ox), (oy, ox, [_nd("attr")] + i0), (ox, ox, oy)):
+        out += [[_nd("lt2")] + a + b + c3, [_nd("not")] + [_nd("ident")] + [_nd("lt2")] + a + b + c3,
+                [_nd("and")] + [_nd("lt2")] + a + b + c3 + [_nd("true")]]
     # chains with calls as operands
     for a in names[:2]:
         for b in names[:2]:
